@@ -199,6 +199,20 @@ class Bytes(Shape):
         return None if isinstance(r, bytes) else "not_bytes"
 
 
+class ByteArrayS(Bytes):
+    T = bytearray
+    name = "bytearray"
+
+    def build(self, src):
+        return bytearray(src.bytes(self.maxlen))
+
+    def same(self, v, r):
+        return type(r) is bytearray and r == v
+
+    def conforms(self, r):
+        return None if type(r) is bytearray else "not_bytearray"
+
+
 class NoneS(Shape):
     T = type(None)
     name = "None"
@@ -614,6 +628,9 @@ def SequenceOf(e, n=2): return Seq(t.Sequence[e.T], list, e, n, f"Sequence[{e.na
 def SetOf(e, n=2): return Seq(set[e.T], set, e, n, f"set[{e.name}]")
 def FrozenSetOf(e, n=2): return Seq(frozenset[e.T], frozenset, e, n, f"frozenset[{e.name}]")
 def DequeOf(e, n=2): return Seq(collections.deque[e.T], collections.deque, e, n, f"deque[{e.name}]")
+def MutableSetOf(e, n=2): return Seq(t.MutableSet[e.T], set, e, n, f"MutableSet[{e.name}]")
+def AbstractSetOf(e, n=2): return Seq(t.AbstractSet[e.T], set, e, n, f"AbstractSet[{e.name}]")
+def MutableSequenceOf(e, n=2): return Seq(t.MutableSequence[e.T], list, e, n, f"MutableSequence[{e.name}]")
 def VarTuple(e, n=2): return Seq(tuple[e.T, ...], tuple, e, n, f"tuple[{e.name},...]")
 def DictOf(k, v, n=2): return Map(dict[k.T, v.T], dict, k, v, n, f"dict[{k.name},{v.name}]")
 def MappingOf(k, v, n=2): return Map(t.Mapping[k.T, v.T], dict, k, v, n, f"Mapping[{k.name},{v.name}]")
